@@ -95,6 +95,16 @@ def r_trunc_int(a: Any) -> Any:
     return T(INT, f"(ite (>= {a.sx} 0.0) (to_int {a.sx}) (- (to_int (- {a.sx}))))")
 
 
+def r_round_int(a: Any) -> Any:
+    """Nearest integer, halves to even (DuckDB CAST(DOUBLE AS BIGINT) = nearbyint), as an Int."""
+    if not is_sym(a):
+        h = Fraction(a) + Fraction(1, 2)
+        f = math.floor(h)
+        return f - 1 if (h == f and f % 2 == 1) else f
+    f = f"(to_int (+ {a.sx} 0.5))"
+    return T(INT, f"(ite (and (= (to_real {f}) (+ {a.sx} 0.5)) (= (mod {f} 2) 1)) (- {f} 1) {f})")
+
+
 def smt_real(v: str) -> Fraction:
     """Value of a Real in a z3 / cvc5 model: 1.5 | (- 1.5) | (/ 3.0 2.0) | (- (/ 3 2)) | 2 ..."""
     toks = re.findall(r"\(|\)|[^\s()]+", v.strip())
@@ -352,9 +362,8 @@ class CastSqlEngine(SqlEngine):
             if a.sort == "dbl":
                 if is_sym(a.v) and a.v.sx in _TRUNC_INT:
                     return SV("int", _TRUNC_INT[a.v.sx], False)
-                if not is_sym(a.v) and Fraction(a.v).denominator == 1:
-                    return SV("int", int(Fraction(a.v)), False)
-                raise SqlOutside("CAST(DOUBLE AS BIGINT) of a value not known to be integral (DuckDB rounds)")
+                # DuckDB rounds a DOUBLE to the nearest integer, halves to even (2.5 -> 2, 3.5 -> 4; conformance grid)
+                return SV("int", r_round_int(a.v), False)
         if tname == "BOOLEAN":
             if a.sort == "bool":
                 return SV("bool", a.v, False)
@@ -379,7 +388,35 @@ class CastSqlEngine(SqlEngine):
             if fa is not None and fb is not None:
                 same = And(*[Eq(p, q) for p, q in zip(fa, fb)])
                 return SV("bool", same if op == "=" else Not(same), Or(a.null, b.null))
+        if "dbl" in (a.sort, b.sort) and a.sort in ("dbl", "int") and b.sort in ("dbl", "int"):
+            x = a.v if a.sort == "dbl" else r_of_int(a.v)
+            y = b.v if b.sort == "dbl" else r_of_int(b.v)
+            lt, eq = r_lt(x, y), r_eq(x, y)
+            v = {"=": eq, "<>": Not(eq), "<": lt, "<=": Or(lt, eq), ">": And(Not(lt), Not(eq)), ">=": Not(lt)}[op]
+            return SV("bool", v, Or(a.null, b.null))
+        if "opaque" in (a.sort, b.sort):
+            raise SqlOutside("comparison with an unmodelled text")
         return super().compare(a, b, op)
+
+    # a DOUBLE whose text DuckDB would print with decimals: the TEXT is not modelled, the fact that it is a (non-NULL)
+    # value is.  Sort `opaque` satisfies no clause about a specific value; clauses of the form "this is an error" are
+    # refuted on it and the counter-model is replayed in the real DuckDB, which decides.
+    def real_to_str(self, a: SV) -> SV:
+        try:
+            return super().real_to_str(a)
+        except SqlOutside as e:
+            if "non-integral DOUBLE" not in str(e):
+                raise
+            return SV("opaque", "non-integral DOUBLE rendered as text", a.null)
+
+    def ev_DPipe(self, e: exp.DPipe, env: Dict[str, SV]) -> SV:
+        a, b = self.eval(e.this, env), self.eval(e.expression, env)
+        if "opaque" in (a.sort, b.sort):
+            na = True if a.sort == "null" else a.null
+            nb = True if b.sort == "null" else b.null
+            return SV("opaque", "text with an unmodelled part", Or(na, nb))
+        a, b = self.as_str(a), self.as_str(b)
+        return SV("str", a.v + b.v, Or(a.null, b.null))
 
     # ISO year / week of a date built from valid civil fields: the field formulation (same function, simpler terms)
     def _iso_fields(self, a: SV) -> Optional[Tuple[Any, Any]]:
@@ -411,6 +448,11 @@ class CastSqlEngine(SqlEngine):
                 self.used_functions.add("isoyear")
                 return SV("int", f[0], a.null)
         return super().ev_Anonymous(e, env)
+
+    def field(self, base: SV, name: str) -> SV:
+        if base.sort == "null":
+            return NULL                    # a field of a NULL struct is NULL
+        return super().field(base, name)
 
     def ev_Trunc(self, e: Any, env: Dict[str, SV]) -> SV:
         if e.args.get("decimals") is not None or e.args.get("expression") is not None:
@@ -510,6 +552,8 @@ def model_expr(eng: SqlEngine, sql: str, env: Dict[str, SV]) -> Tuple[str, Any]:
         v = p.value
         if v.sort == "null" or v.null is True:
             return ("value", None)
+        if v.sort == "opaque":
+            return ("outside", v.v)      # the model knows it is a value, not which: no conformance question
         if v.sort == "dbl":
             return ("value", float(Fraction(v.v)) if not is_sym(v.v) else ("?",))
         return ("value", sqlconf.from_sv(v))
